@@ -3,6 +3,7 @@ package main
 
 import (
 	"crypto/sha256"
+	"crypto/sha3"
 	"encoding/base64"
 	"encoding/hex"
 	"fmt"
@@ -35,6 +36,47 @@ func unx(t string) string {
 func h64(s string) string {
 	sum := sha256.Sum256([]byte(s))
 	return base64.RawURLEncoding.EncodeToString(sum[:])
+}
+
+// h3 is what the model's uninterpreted group hash stands for: base64url(sha3-224(·)).
+func h3(s string) string {
+	sum := sha3.Sum224([]byte(s))
+	return base64.RawURLEncoding.EncodeToString(sum[:])
+}
+
+// pol is one policy identity as the harness generates it.
+type pol struct{ kind, ns, name string }
+
+// groupPreHash is the harness's own statement of the bytes UniqueID() hashes (the model computes the same
+// string independently; the real code's UniqueID is compared with sha3 of it through the driver's table).
+func groupPreHash(dir, sel string, ps []pol) string {
+	d := "inbound"
+	if dir == "out" {
+		d = "outbound"
+	}
+	b := sel + "\n" + d + "\n" + strconv.Itoa(len(ps)) + "\n"
+	for _, p := range ps {
+		b += fmt.Sprintf("{Name: %s, Namespace: %s, Kind: %s}\n", p.name, p.ns, p.kind)
+	}
+	return b
+}
+
+func parsePols(w []string) []pol {
+	var ps []pol
+	for i := 0; i+2 < len(w); i += 3 {
+		ps = append(ps, pol{unx(w[i]), unx(w[i+1]), unx(w[i+2])})
+	}
+	return ps
+}
+
+// inAlphabet: the guard of the identity theorems (what v3 validation guarantees).
+func inAlphabet(ss ...string) bool {
+	for _, s := range ss {
+		if strings.ContainsAny(s, "\n,/") {
+			return false
+		}
+	}
+	return true
 }
 
 // state of one case: names handed out so far, per namespace, for the distinctness oracle.
@@ -103,6 +145,11 @@ func (s *state) check(h *rt.H, op string, ns, ident string, max int, f func() st
 		}
 		if prev, ok := m[name]; ok && prev != ident {
 			sig := "collision"
+			if strings.HasPrefix(prev, "grp2/") && strings.HasPrefix(ident, "grp2/") {
+				sig = "group-identity-collision"
+			} else if strings.HasPrefix(prev, "pol2/") && strings.HasPrefix(ident, "pol2/") {
+				sig = "policy-identity-collision"
+			}
 			if strings.HasPrefix(prev, "static/") {
 				// a dynamic chain name equal to one of the FIXED chain names of rule_defs.go
 				sig = "collision-static-chain"
@@ -185,7 +232,9 @@ func exec(h *rt.H, s *state, op string) string {
 		if nft {
 			max = nftables.MaxChainNameLength
 		}
-		return s.check(h, op, "chains/"+w[3], "pol/"+w[1]+"/"+w[2], max, func() string { return rules.PolicyChainName(pfx, id, nft) }, false)
+		// same identity label as `pol2` (the same policy may be named through either op)
+		ident := "pol2/" + w[1] + "/" + xs(id.Kind) + "/" + w[5] + "/" + w[6] + "/."
+		return s.check(h, op, "chains/"+w[3], ident, max, func() string { return rules.PolicyChainName(pfx, id, nft) }, !inAlphabet(id.Namespace, id.Name))
 	case "prof":
 		nft := w[3] == "1"
 		pfx, max := rules.ProfileInboundPfx, iptables.MaxChainNameLength
@@ -212,6 +261,42 @@ func exec(h *rt.H, s *state, op string) string {
 		// group chains live with the other chains in both modes
 		out := s.check(h, op, "chains/0", "grp/"+w[1]+"/"+w[3], iptables.MaxChainNameLength, func() string { return g.ChainName() }, false)
 		s.check(h, op, "chains/1", "grp/"+w[1]+"/"+w[3], nftables.MaxChainNameLength, func() string { return g.ChainName() }, false)
+		return out
+	case "h3":
+		return "ok"
+	case "pid":
+		id := types.PolicyID{Kind: unx(w[1]), Namespace: unx(w[2]), Name: unx(w[3])}
+		return xs(id.ID()) + " " + xs(id.String())
+	case "pol2":
+		id := &types.PolicyID{Kind: unx(w[3]), Namespace: unx(w[4]), Name: unx(w[5])}
+		nft := w[2] == "1"
+		pfx, max := rules.PolicyInboundPfx, iptables.MaxChainNameLength
+		if w[1] == "out" {
+			pfx = rules.PolicyOutboundPfx
+		}
+		if nft {
+			max = nftables.MaxChainNameLength
+		}
+		// distinct (Kind, Namespace, Name) must get distinct chain names — claimed inside the validation alphabet
+		exempt := !inAlphabet(id.Namespace, id.Name) || id.Name == ""
+		return s.check(h, op, "chains/"+w[2], "pol2/"+w[1]+"/"+w[3]+"/"+w[4]+"/"+w[5]+"/.", max, func() string { return rules.PolicyChainName(pfx, id, nft) }, exempt)
+	case "grp2":
+		ps := parsePols(w[3:])
+		g := &rules.PolicyGroup{Selector: unx(w[2]), Direction: rules.PolicyDirectionInbound}
+		if w[1] == "out" {
+			g.Direction = rules.PolicyDirectionOutbound
+		}
+		exempt := !inAlphabet() || strings.Contains(g.Selector, "\n")
+		for _, p := range ps {
+			g.Policies = append(g.Policies, &types.PolicyID{Kind: p.kind, Namespace: p.ns, Name: p.name})
+			// String() separates its fields with ", ": the guard for groups is "no ',' and no newline"
+			if strings.ContainsAny(p.kind+p.ns+p.name, "\n,") {
+				exempt = true
+			}
+		}
+		ident := "grp2/" + strings.Join(w[1:], ":") + "/."
+		out := s.check(h, op, "chains/0", ident, iptables.MaxChainNameLength, func() string { return g.ChainName() }, exempt)
+		s.check(h, op, "chains/1", ident, nftables.MaxChainNameLength, func() string { return g.ChainName() }, exempt)
 		return out
 	case "ipset":
 		fam := ipsets.IPFamilyV4
@@ -279,6 +364,98 @@ func suffixAround(h *rt.H, plen, max int) string {
 	return s
 }
 
+var realKinds = []string{v3.KindNetworkPolicy, v3.KindGlobalNetworkPolicy, v3.KindStagedNetworkPolicy, v3.KindStagedGlobalNetworkPolicy,
+	v3.KindStagedKubernetesNetworkPolicy, model.KindKubernetesNetworkPolicy, model.KindKubernetesClusterNetworkPolicy}
+
+func grpOp(dir, sel string, ps []pol) string {
+	t := []string{"grp2", dir, xs(sel)}
+	for _, p := range ps {
+		t = append(t, xs(p.kind), xs(p.ns), xs(p.name))
+	}
+	return strings.Join(t, " ")
+}
+
+// genIdentity emits a base group / policy and variants that differ from it in exactly one identity component.
+func genIdentity(h *rt.H, ops *[]string, add func(op, suf string)) {
+	dns := func(n int) string {
+		const a = "abcdefghijklmnopqrstuvwxyz0123456789-."
+		b := make([]byte, n)
+		for i := range b {
+			b[i] = a[h.Intn(len(a))]
+		}
+		return string(b)
+	}
+	nameLen := rt.Pick(h, []int{1, 3, 8, 20, 40, 200})
+	base := []pol{{rt.Pick(h, realKinds), rt.Pick(h, []string{"", "default", dns(5)}), dns(nameLen)},
+		{rt.Pick(h, realKinds), rt.Pick(h, []string{"", "default", dns(5)}), dns(1 + h.Intn(12))}}
+	if h.Intn(3) == 0 {
+		base = base[:1]
+	}
+	sel := rt.Pick(h, []string{"all()", "has(a)", "a == 'b'", "", "a in {'x, y'}"})
+	dir := rt.Pick(h, []string{"in", "out"})
+	var groups [][]pol
+	var dirs, sels []string
+	emit := func(d, s string, ps []pol) {
+		groups = append(groups, ps)
+		dirs = append(dirs, d)
+		sels = append(sels, s)
+	}
+	cp := func() []pol { return append([]pol(nil), base...) }
+	emit(dir, sel, base)
+	// Kind only (every other kind), on the first or last policy
+	idx := h.Intn(len(base))
+	for _, k := range realKinds {
+		if k != base[idx].kind && h.Intn(2) == 0 {
+			v := cp()
+			v[idx].kind = k
+			emit(dir, sel, v)
+		}
+	}
+	v := cp()
+	v[idx].ns = v[idx].ns + "x" // Namespace only
+	emit(dir, sel, v)
+	v = cp()
+	v[idx].name = v[idx].name[:len(v[idx].name)-1] + "~" // Name only (last character)
+	emit(dir, sel, v)
+	if len(base) == 2 { // order of the policies, and a dropped policy
+		emit(dir, sel, []pol{base[1], base[0]})
+		emit(dir, sel, base[:1])
+	}
+	emit(dir, sel+" ", base)                           // selector only
+	emit(map[string]string{"in": "out", "out": "in"}[dir], sel, base) // direction only
+	// separator ambiguity inside the alphabet of String(): "/" moves between namespace and name
+	emit(dir, sel, []pol{{base[0].kind, "a/b", "c"}})
+	emit(dir, sel, []pol{{base[0].kind, "a", "b/c"}})
+	// ... and outside it (excluded points, correspondence only): ", " and newline
+	emit(dir, sel, []pol{{base[0].kind, "z", "x, Namespace: y"}})
+	emit(dir, sel, []pol{{base[0].kind, "y, Namespace: z", "x"}})
+	emit(dir, "s\ninbound", base[:1])
+	seen := map[string]bool{}
+	for i, g := range groups {
+		pre := groupPreHash(dirs[i], sels[i], g)
+		if !seen[pre] {
+			seen[pre] = true
+			*ops = append(*ops, fmt.Sprintf("h3 %s %s", xs(pre), xs(h3(pre))))
+		}
+		*ops = append(*ops, grpOp(dirs[i], sels[i], g))
+	}
+	// the same identities as individual policies (PolicyID.ID()), one dataplane mode per batch
+	nf := rt.Pick(h, []string{"0", "1"})
+	pd := rt.Pick(h, []string{"in", "out"})
+	done := map[pol]bool{}
+	for _, g := range groups {
+		for _, p := range g {
+			if done[p] || p.name == "" {
+				continue
+			}
+			done[p] = true
+			id := (&types.PolicyID{Kind: p.kind, Namespace: p.ns, Name: p.name}).ID()
+			*ops = append(*ops, fmt.Sprintf("pid %s %s %s", xs(p.kind), xs(p.ns), xs(p.name)))
+			add(fmt.Sprintf("pol2 %s %s %s %s %s", pd, nf, xs(p.kind), xs(p.ns), xs(p.name)), id)
+		}
+	}
+}
+
 func genCase(h *rt.H) []string {
 	ops := []string{"new"}
 	var hashed []string // suffixes whose hash the model may need
@@ -300,7 +477,7 @@ func genCase(h *rt.H) []string {
 	n := 4 + h.Intn(14)
 	var lastSuffix string
 	for i := 0; i < n; i++ {
-		switch h.Intn(10) {
+		switch h.Intn(11) {
 		case 0, 1, 2: // raw GetLengthLimitedID, one (prefix,max) with several suffixes incl. adversarial ones
 			p := rt.Pick(h, []string{"", "cali-pi-", "cali-tw-", "p", "cali-thfw-", "_", "felix-"})
 			m := rt.Pick(h, []int{28, 28, 31, 15, 16, len(p) + 1, len(p) + 2, len(p) + 44, len(p) + 45, 60, 128, 256, 0, -1})
@@ -375,6 +552,8 @@ func genCase(h *rt.H) []string {
 			k := h.Intn(40)
 			g := group([]string{"grp", dir, "", strconv.Itoa(k)})
 			ops = append(ops, fmt.Sprintf("grp %s %s %d", dir, xs(g.UniqueID()), k))
+		case 9: // identity pairs: groups / policies differing in exactly ONE component
+			genIdentity(h, &ops, add)
 		default: // IP sets
 			fam := rt.Pick(h, []string{"4", "6"})
 			np := rt.Pick(h, []string{"cali", "cali", "c", "felix-ipsets-long-prefix-", "a-very-long-ip-set-name-prefix-over-31"})
@@ -414,10 +593,14 @@ func main() {
 			out := exec(h, s, op)
 			h.Op(op, out)
 			k := strings.Fields(op)[0]
-			if k != "h" {
+			if k != "h" && k != "h3" {
 				h.Count("op:" + k)
 				if out == "panic" {
 					h.Count("out:panic")
+				} else if k == "h3" || k == "pid" || k == "grp2" {
+					// identity ops: nothing to classify
+				} else if k == "pol2" {
+					h.Count("out:pol2")
 				} else if k != "new" && k != "grp" && k != "ipset" {
 					nm := unx(out)
 					w := strings.Fields(op)
@@ -442,8 +625,19 @@ func main() {
 		seen := map[string]bool{}
 		for _, l := range lines {
 			w := strings.Fields(l)
-			if w[0] == "h" || w[0] == "new" {
+			if w[0] == "h" || w[0] == "h3" || w[0] == "new" {
 				continue
+			}
+			if w[0] == "grp2" && len(w) >= 3 {
+				pre := groupPreHash(w[1], unx(w[2]), parsePols(w[3:]))
+				ops = append(ops, fmt.Sprintf("h3 %s %s", xs(pre), xs(h3(pre))))
+			}
+			if w[0] == "pol2" && len(w) == 6 {
+				id := (&types.PolicyID{Kind: unx(w[3]), Namespace: unx(w[4]), Name: unx(w[5])}).ID()
+				if !seen[id] {
+					seen[id] = true
+					ops = append(ops, fmt.Sprintf("h %s %s", xs(id), xs(h64(id))))
+				}
 			}
 			if len(w) > 2 && (w[0] == "gll" || w[0] == "pol" || w[0] == "prof" || w[0] == "ep") {
 				s := unx(w[2])
